@@ -231,8 +231,11 @@ def run_history(h, check_every=True, qsubset=None, r=None, stop_on_first=True):
         warnings.simplefilter("ignore")
         np.seterr(all="ignore")
         obj = cls(**copy.deepcopy(BASE[h.clsname]))
+        other = None
         for i, op in enumerate(h.ops):
             stats["ops"] += 1
+            if op[0] in ("clone", "deepcopy", "pickle"):
+                other = obj
             try:
                 if op[0] == "read":
                     for q in op[1]:
@@ -276,6 +279,21 @@ def run_history(h, check_every=True, qsubset=None, r=None, stop_on_first=True):
             cq = qs if qsubset is None else qsubset
             if r is not None and len(cq) > 8:
                 cq = r.sample(cq, 8)
+            if other is not None:
+                # the object this one was copied from keeps being used as well: it must stay coherent
+                try:
+                    fo = fresh_from(other)
+                    for q in cq[:4]:
+                        a, b = read(other, q), read(fo, q)
+                        stats["compared"] += 1
+                        if a != b and not (a[0] == "exc" and b[0] == "exc" and a[1] == b[1]):
+                            viol.append({"at": i, "kind": "stale-or-different", "quantity": q, "object": "original-after-copy",
+                                         "cached": a if a[0] == "exc" else "value", "fresh": b if b[0] == "exc" else "value", "internal": is_internal(a)})
+                            break
+                except Exception:
+                    pass
+                if viol and stop_on_first:
+                    break
             for q in cq:
                 a = read(obj, q)
                 b = read(fr, q)
